@@ -21,8 +21,13 @@ NOSCHED = "mkdir,mkdirat,fstat"
 
 # ------------------------------------------------------------------ (1) schedules
 
-def W(ctx, key, data, t):
-    return {"op": "writer", "cache": "<C>", "key": key, "opts": {"time": str(t)}, "chunks": [ctx.data(data)]}
+def W(ctx, key, data, t, big=False):
+    opts = {"time": str(t)}
+    if big:
+        # a record well above any 4/8 KiB buffering layer
+        opts["metadata"] = {"pad": chr(97 + t % 26) * 12000}
+        opts["raw_metadata"] = (bytes([t % 256]) * 1500).hex()
+    return {"op": "writer", "cache": "<C>", "key": key, "opts": opts, "chunks": [ctx.data(data)]}
 
 
 def pair_types(ctx):
@@ -36,6 +41,8 @@ def pair_types(ctx):
         T.append({"name": name, "prep": prep, "ops": ops, "keys": keys, "sris": sris, "exhaustive": exhaustive})
 
     P("W(k,A)||W(k,B)", prep_warm, [W(ctx, "k", A, 10), W(ctx, "k", B, 11)], ["k"], [sA, ref.sri("sha256", B)])
+    P("Wbig(k,A)||Wbig(k,B)", prep_warm, [W(ctx, "k", A, 10, big=True), W(ctx, "k", B, 11, big=True)], ["k"], [sA, ref.sri("sha256", B)])
+    P("Wbig(k,A)||remove(k)", prep_old, [W(ctx, "k", A, 10, big=True), {"op": "remove", "cache": "<C>", "key": "k"}], ["k"], [sA, sOLD])
     P("W(k,A)||W(k,A)", prep_warm, [W(ctx, "k", A, 10), W(ctx, "k", A, 11)], ["k"], [sA])
     P("W(k1,A)||W(k2,A)", prep_warm + [{"op": "remove", "cache": "<C>", "key": "k2"}],
       [W(ctx, "k", A, 10), W(ctx, "k2", A, 11)], ["k", "k2"], [sA])
@@ -289,11 +296,18 @@ def stress_round(ctx, rnd, nproc, per_prog, modes):
                 uniq[0] += 1
                 data = f"v-{rnd}-{pid}-{tid}-{uniq[0]}".encode() * rng.randint(1, 40)
                 val_id[ref.sri("sha256", data)] = data
-                if rng.random() < 0.5:
+                rr = rng.random()
+                if rr < 0.4:
                     prog.append({"op": "write", "cache": cache, "key": k, "data": {"hex": data.hex()}})
-                else:
+                elif rr < 0.8:
                     prog.append({"op": "writer", "cache": cache, "key": k, "opts": {"metadata": {"p": pid}},
                                  "chunks": [{"hex": data[:7].hex()}, {"hex": data[7:].hex()}]})
+                else:
+                    # a record larger than common buffer sizes (4/8/64 KiB layers must not split the append)
+                    prog.append({"op": "writer", "cache": cache, "key": k,
+                                 "opts": {"metadata": {"p": pid, "pad": "m" * rng.choice([5000, 9000, 70000])},
+                                          "raw_metadata": (bytes([pid % 256]) * rng.choice([10, 3000])).hex()},
+                                 "chunks": [{"hex": data.hex()}]})
             elif r < 0.4:
                 prog.append({"op": "remove", "cache": cache, "key": k})
             elif r < 0.6:
@@ -559,7 +573,7 @@ def run(ctx):
     # random: cold caches in sync mode, warm+cold in async modes
     nrand_cold = 40 if ctx.quick else 600
     nrand_async = 20 if ctx.quick else 250
-    rand_pts = [p for p in pts if p["name"] in ("W(k,A)||W(k,B)", "W(k1,A)||W(k2,A)", "W(k,A)||read(k)", "W(k,A)||list",
+    rand_pts = [p for p in pts if p["name"] in ("W(k,A)||W(k,B)", "Wbig(k,A)||Wbig(k,B)", "Wbig(k,A)||remove(k)", "W(k1,A)||W(k2,A)", "W(k,A)||read(k)", "W(k,A)||list",
                                                 "W(k,A)||remove_hash(A)", "W(k,A)||W(k,B)||W(k,C)", "remove_hash||read(k)",
                                                 "W(k,A)||remove(k)||metadata(k)")]
     ri = {}
